@@ -751,6 +751,7 @@ func runC20(c *Ctx) {
 	mapReduceKeyFilter = ""
 	checkResultsUsedOnlyWithoutError(c, "Z11")
 	checkShortInputIsReported(c, "Z12")
+	checkReplyErrorsConsumed(c, "Z13")
 }
 
 // clientAxioms adds: data returned by clientConn.sendPacket with a nil error, and result.data of a
@@ -1031,7 +1032,7 @@ func checkStatusIsFailureWhereDataIsExpected(c *Ctx, rule string) {
 		})
 	}
 	c.check(n >= 5, rule, "data requests that can be refused with a STATUS", "?", fmt.Sprintf("%d sites", n), fmt.Sprintf("only %d sites found", n))
-	checkStatusCaseNextToDataCase(c, rule)
+	checkStatusCaseNextToDataCase(c, rule, false)
 }
 
 // checkStatusCaseNextToDataCase: the same fact decided from the reply switch rather than from the result type.  A
@@ -1039,7 +1040,12 @@ func checkStatusIsFailureWhereDataIsExpected(c *Ctx, rule string) {
 // the STATUS case is the reply handling of a data request; the error decoded in its STATUS case must not be able to be
 // nil.  With SSH_FX_OK read as success, ReadDir ends the listing early with a nil error, and ReadAt, Read and WriteTo
 // return a short count with a nil error.
-func checkStatusCaseNextToDataCase(c *Ctx, rule string) {
+//
+// With alone set the converse is decided for the File methods: a switch with a STATUS case and no data case is the
+// reply handling of a request that is *acknowledged* with a STATUS (WRITE, CLOSE, FSETSTAT, fsync), and there the
+// decoded error must be able to be nil — a decoder that turns SSH_FX_OK into an error fails every chunk the server
+// took.
+func checkStatusCaseNextToDataCase(c *Ctx, rule string, alone bool) {
 	p := c.P
 	cv := func(name string) (int64, bool) {
 		k := p.Sftp.Const(name)
@@ -1115,7 +1121,10 @@ func checkStatusCaseNextToDataCase(c *Ctx, rule string) {
 					want = nme
 				}
 			}
-			if st == nil || want == "" {
+			if st == nil || (want == "") != alone {
+				continue
+			}
+			if alone && !strings.Contains(fnName(outermost(fn)), "File)") {
 				continue
 			}
 			// the true branch of the STATUS comparison
@@ -1152,12 +1161,22 @@ func checkStatusCaseNextToDataCase(c *Ctx, rule string) {
 					}
 					n++
 					ord++
+					if alone {
+						key := fmt.Sprintf("%s: STATUS is the acknowledgement #%d", fnName(fn), ord)
+						c.check(!p.errNeverNil(e, b, nil, 0), rule, key, p.Pos(call.Pos()), "SSH_FX_OK decodes to a nil error",
+							"the reply to this request is decoded with a function that never returns nil: the SSH_FX_OK that acknowledges the chunk is reported as a failure")
+						continue
+					}
 					key := fmt.Sprintf("%s: STATUS case beside the %s case #%d", fnName(fn), want, ord)
 					c.check(p.errNeverNil(e, b, nil, 0), rule, key, p.Pos(call.Pos()), "the decoded status cannot come out as a nil error",
 						"a STATUS reply with code SSH_FX_OK to this data request is read as success: the listing ends early, or the read returns a short count, with a nil error")
 				}
 			}
 		}
+	}
+	if alone {
+		c.check(n >= 2, rule, "STATUS cases of acknowledged requests", "?", fmt.Sprintf("%d sites", n), fmt.Sprintf("only %d sites found", n))
+		return
 	}
 	c.check(n >= 10, rule, "STATUS cases of data requests", "?", fmt.Sprintf("%d sites", n), fmt.Sprintf("only %d sites found", n))
 }
@@ -1870,4 +1889,86 @@ func checkShortInputIsReported(c *Ctx, rule string) {
 		}
 	}
 	c.check(nPrim >= 3 && nProp >= 20 && nBuf >= 4, rule, "length guards and error hand-ups examined", "?", fmt.Sprintf("%d primitive guards, %d hand-ups, %d Buffer guards", nPrim, nProp, nBuf), fmt.Sprintf("only %d primitive guards, %d hand-ups and %d Buffer guards found", nPrim, nProp, nBuf))
+}
+
+// valueLive: v is consumed by something other than a join that is itself consumed by nothing.
+func valueLive(v ssa.Value, seen map[ssa.Value]bool) bool {
+	if seen[v] {
+		return false
+	}
+	seen[v] = true
+	refs := v.Referrers()
+	if refs == nil {
+		return true
+	}
+	for _, r := range *refs {
+		switch x := r.(type) {
+		case *ssa.DebugRef:
+		case *ssa.Phi:
+			if valueLive(x, seen) {
+				return true
+			}
+		default:
+			return true
+		}
+	}
+	return false
+}
+
+// checkReplyErrorsConsumed (C20.Z13): in a function that decodes replies (it has a case for the STATUS type byte),
+// an error computed from the reply is what the function reports.  An error value that is computed and then
+// consumed by nothing — the worker hands on the transport's error instead of the one it decoded — loses the
+// refusal, the EOF and the malformed reply alike: the transfer waits for an end that is never reported.
+func checkReplyErrorsConsumed(c *Ctx, rule string) {
+	p := c.P
+	status := int64(-1)
+	if k := p.Sftp.Const("sshFxpStatus"); k != nil {
+		status, _ = constInt(k.Value)
+	}
+	if status < 0 {
+		c.missing(rule, "sshFxpStatus")
+		return
+	}
+	n := 0
+	for _, fn := range p.LibFuncs() {
+		if outermost(fn).Package() != p.Sftp || !isClientSide(fn) {
+			continue
+		}
+		hasStatus := false
+		eachInstr(fn, func(in ssa.Instruction) {
+			if bo, ok := in.(*ssa.BinOp); ok && (bo.Op == token.EQL || bo.Op == token.NEQ) {
+				for _, s := range []ssa.Value{bo.X, bo.Y} {
+					if k, ok := constInt(s); ok && k == status {
+						if _, isC := s.(*ssa.Const); isC {
+							hasStatus = true
+						}
+					}
+				}
+			}
+		})
+		if !hasStatus {
+			continue
+		}
+		ord := map[string]int{}
+		eachInstr(fn, func(in ssa.Instruction) {
+			call, ok := in.(*ssa.Call)
+			if !ok {
+				return
+			}
+			f := call.Call.StaticCallee()
+			if f == nil || !inModule(f) {
+				return
+			}
+			res := f.Signature.Results()
+			if res.Len() != 1 || res.At(0).Type().String() != "error" {
+				return
+			}
+			n++
+			ord[f.Name()]++
+			key := fmt.Sprintf("%s: error of %s #%d", fnName(fn), f.Name(), ord[f.Name()])
+			c.check(valueLive(call, map[ssa.Value]bool{}), rule, key, p.Pos(call.Pos()), "consumed",
+				"the error computed from the reply is consumed by nothing: the function reports something else (the transport's error, or none) and the refusal, the end of the file or the malformed reply is lost")
+		})
+	}
+	c.check(n >= 10, rule, "errors computed in reply decoders", "?", fmt.Sprintf("%d calls", n), fmt.Sprintf("only %d calls found", n))
 }
